@@ -1024,6 +1024,12 @@ def _decorate_with_invariants(func: CallableT, is_init: bool) -> CallableT:
             in_progress = _IN_PROGRESS.get()
 
             id_instance = id(instance)
+            if id_instance in in_progress:
+                # A constructor further up the call stack is still constructing this very instance
+                # (*e.g.*, the constructor of a derived class called ``super().__init__``).
+                # The invariants are checked once the outermost constructor finishes.
+                return func(*args, **kwargs)
+
             _IN_PROGRESS.set(in_progress | {id_instance})
 
             # ExitStack is not used here due to performance.
